@@ -417,6 +417,8 @@ class Monitor:
                     return other
                 ops.append(('update_from_other_container', _update))
             for opname, op in ops:
+                if opname != 'update_from_other_container' and 'node' in dir(type(p)) and mode == texts[0][0]:
+                    self.check_node_member(p, op, opname, info)
                 try:
                     c = op(p)
                 except Exception as ex:  # noqa: BLE001
@@ -451,6 +453,50 @@ class Monitor:
                     p = self.parse(info, codec, text, (), template)   # restore an unmodified original for the next op
                 self.recheck_baseline(f'{opname} of a parsed {info.name} and rewriting all members of the copy', family)
         self.recheck_baseline(f'construct / parse-with-absent-members / copy / rewrite activity on class {info.name}')
+
+
+def _check_node_member(self, p, op, opname, info):
+    """the ``node`` member of containers (the element a container was read from) is not a declared property: the generic walker / mutator
+    do not see it.  A copy must not rebind or modify the node of the original, whatever is done with the node of the copy."""
+    from lxml import etree
+    ctx = self.ctx
+    saved = p.node
+    try:
+        orig_node = etree.Element('vf_original')
+        orig_node.set('a', '1')
+        p.node = orig_node
+        c = op(p)
+        ctx.count(f'copy.{opname}.node_checked')
+        detail = {'class': info.key, 'operation': opname}
+        if p.node is not orig_node:
+            ctx.witness(f'copy_alias.node.original_rebound.{opname}', f'{opname}() of a container replaces the node of the ORIGINAL', detail)
+            p.node = orig_node
+        if opname in ('deepcopy', 'mk_copy_with_node'):
+            if c.node is None:
+                ctx.count(f'copy.{opname}.copy_has_no_node')   # lossy, but nothing is shared: outside the statement
+            elif c.node is orig_node:
+                ctx.witness(f'copy_alias.node.not_copied.{opname}', f'{opname}() does not give the copy its own node', detail)
+            else:
+                c.node.set('a', '2')
+                etree.SubElement(c.node, 'child')
+                if orig_node.get('a') != '1' or len(orig_node):
+                    ctx.witness(f'copy_alias.node.in_place.{opname}', f'modifying the node of the {opname}() result modifies the node of the original', detail)
+        c.node = etree.Element('vf_other')
+        if p.node is not orig_node:
+            ctx.witness(f'copy_alias.node.rebinding_leaks.{opname}', f'assigning a new node to the result of {opname}() changes the node of the original',
+                        detail)
+        c2 = op(p)
+        c2.node = None
+        if p.node is None:
+            ctx.witness(f'copy_alias.node.rebinding_leaks.{opname}', f'assigning a new node to the result of {opname}() changes the node of the original',
+                        detail)
+    except Exception as ex:  # noqa: BLE001
+        ctx.count(f'copy.{opname}.node_check_raised.{type(ex).__name__}')
+    finally:
+        p.node = saved
+
+
+Monitor.check_node_member = _check_node_member
 
 
 def _blame_path(root, path: str) -> str:
